@@ -38,16 +38,22 @@ def encodeLoop : List Tok → List Tok → List Sel → List Sel
 
 def encode (toks : List Tok) : List Sel := encodeLoop toks [] []
 
-/-- `'?' in j` -/
+/-- `'?' in j` (kept for the specifications that speak about tokens containing a question mark) -/
 def hasQ (t : Tok) : Bool := t.toList.contains '?'
 
+/-- `is_combinator(j)`: a three-character token `?c?`, the encoded form of a combinator -/
+def isEncLike (t : Tok) : Bool :=
+  match t.toList with
+  | ['?', _, '?'] => true
+  | _ => false
+
 /-- `[i for i, j in pairwise(part) if i != ' ' or (j and '?' not in j)]`:
-    a `" "` is dropped when it is last or stands before an encoded combinator -/
+    a `" "` is dropped when it is last or stands before an encoded combinator `?c?` -/
 def pairwiseFilter : Sel → Sel
   | [] => []
   | [t] => if t == " " then [] else [t]
   | t :: u :: rest =>
-      if t == " " && hasQ u then pairwiseFilter (u :: rest)
+      if t == " " && isEncLike u then pairwiseFilter (u :: rest)
       else t :: pairwiseFilter (u :: rest)
 
 /-- `itertools.product(range(n), repeat=r)` applied to `pool`: all r-tuples, first index slowest -/
